@@ -6,6 +6,7 @@ package loader
 
 import (
 	"fmt"
+	"net/url"
 	"path"
 	"strings"
 
@@ -119,6 +120,23 @@ func AbsLoc(s *Spec, i int) string {
 
 func (g *gen) canary() string {
 	m := g.s.Marker
+	// the root's own path on another host / on the local disk: "same path" must not pass for "same document"
+	rootPath := "/" + g.s.Files[0].Path
+	if u, err := url.Parse(AbsLoc(g.s, 0)); err == nil && u.Path != "" {
+		rootPath = u.Path
+	}
+	if !strings.HasPrefix(rootPath, "/") {
+		rootPath = "/" + rootPath
+	}
+	if g.r.Chance(1, 4) {
+		return simfw.Pick(g.r, []string{
+			"http://canary-" + m + ".test" + rootPath + "#/components/schemas/Tschema",
+			"https://canary-" + m + ".test" + rootPath + "#/components/schemas/Tschema",
+			"//canary-" + m + ".test" + rootPath + "#/components/schemas/Tschema",
+			rootPath + "#/components/schemas/Tschema",
+			"file://" + rootPath + "#/components/schemas/Tschema",
+		})
+	}
 	return simfw.Pick(g.r, []string{
 		"decoy-" + m + ".json", "../decoy-" + m + ".json", "../../../../etc/passwd-" + m, "/etc/passwd-" + m, "/sim/" + m + "/decoy.json#/x",
 		"http://canary-" + m + ".test/steal.json", "https://canary-" + m + ".test/steal.json#/components/schemas/S", "//canary-" + m + ".test/x.json",
